@@ -44,12 +44,6 @@ theorem post_pure_bind {α β : Type} {a : α} {f : α → P β} {R : β → Pro
     (h : Post (f a) R) : Post (pure a >>= f) R :=
   post_bind (post_pure_eq a) (fun _ hb => hb ▸ h)
 
-theorem failHere_error {α : Type} (s : PState) : ∃ l, (failHere : P α).run s = .error (.at l) := by
-  unfold failHere curLine
-  cases h : s.src <;> simp [StateT.run, bind, StateT.bind, get, getThe, MonadStateOf.get,
-    StateT.get, pure, StateT.pure, Except.bind, Except.pure, throw, throwThe,
-    MonadExceptOf.throw, StateT.lift, h]
-
 theorem post_failHere {α : Type} {Q : α → Prop} : Post (failHere : P α) Q := ⟨by
   intro s a s' h
   obtain ⟨l, hl⟩ := failHere_error (α := α) s
@@ -166,7 +160,6 @@ theorem post_parseList (env : Env) (stop : Nat) (elem : P Node) (Q : Node → Pr
   unfold parseList
   have := post_parseListLoop env stop elem Q hel
   post_auto
-  apply this; simp
 
 macro_rules | `(tactic| post_leaf) => `(tactic| (apply post_parseList; post_leaf))
 
